@@ -70,7 +70,7 @@ def main():
             na.append({"property_id": pid, "reason": "check not built yet (work in progress; see DESIGN.md section 10)"})
     m = {
         "version": 1,
-        "setup_cmd": "cd /verif && GOFLAGS=-mod=mod GOPROXY=off GOSUMDB=off GOTOOLCHAIN=local sh -c 'cp /repo/go.sum harness/go.sum && cd harness && go1.26.8 vet -tags verif . && for m in /verif/spec/*.tla; do tla-sany $m >/dev/null || exit 1; done'",
+        "setup_cmd": "cd /verif && GOFLAGS=-mod=mod GOPROXY=off GOSUMDB=off GOTOOLCHAIN=local sh -c 'cp /repo/go.sum harness/go.sum && cd harness && go1.26.8 vet -tags verif . && cd /verif/spec && for m in *.tla; do tla-sany $m >/dev/null || exit 1; done'",
         "hooks": hooks,
         "engines": [{"name": "check", "path": "/verif/bin/check", "serves_properties": sorted(CHECKS),
                      "kind_free_text": "python orchestrator: TLC (mc / neg / graph emission / trace validation) + Go harness (replay of TLC state graphs and schedules into the real code under testing/synctest, recorded traces)"}],
